@@ -101,9 +101,22 @@ package unmarshal
 //@     invariant determs[1] == foldXor(hseq, hcount)
 //@     invariant determs[2] == foldMix(hseq, hcount)
 //@     modifies hseq, hcount, elems(determs)
-// Not verified here (JSON text / shared cache): frame only.
-//@ func encodeLabels
+// The label document of a series: a JSON object built by hand. Each pair is the
+// JSON string literal of the name, ':' and the JSON string literal of the
+// value; the document is '{' + the pairs joined by ',' + '}' (specs/jsontext.spec).
+//@ func jsonString [C04]
 //@   modifies nothing
+//@   ensures result == jsonStr(s)
+//@ func encodeLabels [C04]
+//@   requires forall i int :: 0 <= i && i < len(lbls) ==> len(lbls[i]) == 2
+//@   modifies nothing
+//@   check pairs: len(arrLbls) == len(lbls) && forall i int :: 0 <= i && i < len(lbls) ==> arrLbls[i] == jsonStr(lbls[i][0]) + ":" + jsonStr(lbls[i][1])
+//@   check document: result == "{" + joinStr(arrayof(arrLbls), offsetof(arrLbls), len(arrLbls), ",") + "}"
+//@   loop 1:
+//@     invariant len(arrLbls) == len(lbls)
+//@     invariant forall j int :: 0 <= j && j <= rangeindex ==> arrLbls[j] == jsonStr(lbls[j][0]) + ":" + jsonStr(lbls[j][1])
+//@     modifies elems(arrLbls)
+// Not verified here (shared cache): frame only.
 //@ func maybeAddFp
 //@   modifies nothing
 
@@ -123,6 +136,9 @@ package unmarshal
 //@   check row-value: rowsSent == old(rowsSent) ==> (forall k int :: 0 <= k && k < len(timestampsNS) ==> p.tsSpl.spl.MValue[old(len(p.tsSpl.spl.MTimestampNS)) + k] == value[k])
 //@   check row-type: rowsSent == old(rowsSent) ==> (forall k int :: 0 <= k && k < len(timestampsNS) ==> p.tsSpl.spl.MType[old(len(p.tsSpl.spl.MTimestampNS)) + k] == types[k])
 //@   check row-stream: rowsSent == old(rowsSent) ==> (forall k int :: 0 <= k && k < len(timestampsNS) ==> p.tsSpl.spl.MFingerprint[old(len(p.tsSpl.spl.MTimestampNS)) + k] == fp)
+//@   loop 1:
+//@     invariant forall i int :: 0 <= i && i < len(_labels) ==> len(_labels[i]) == 2
+//@     modifies allocated
 //@   loop 2:
 //@     modifies elems(tps)
 //@   check series-day-is-utc: rowsSent == old(rowsSent) ==> (forall k int :: old(len(p.tsSpl.ts.MDate)) <= k && k < len(p.tsSpl.ts.MDate) ==> zoneOff(p.tsSpl.ts.MDate[k]) == 0)
